@@ -148,7 +148,8 @@ def attrs_samples(rng):
     ]
 
 
-def run(ses):
+def run(ses, prop="C08"):
+    """the codec contract; also run (with their own obligation ids) by the properties that use the codec as a lemma: C07, C10"""
     import fsspec
     from fsspec.implementations.dirfs import DirFileSystem
 
@@ -191,9 +192,21 @@ def run(ses):
         inner = Group(path="/outer/inner", url="u", data={"v": var}, attrs=A[(i + 1) % len(A)])
         outer = Group(path="/outer", url="u", data={"inner": inner, "w": Variable(dims_of(a), a, {})}, attrs=A[(i + 2) % len(A)])
         check(f"generated/{label}", outer)
+    # image arrays of files beyond 4 GiB / 2**53 bytes (only the index entries are built, no such file is needed), with
+    # long and short byte-range lists, more ranges than lines, an empty group path
+    for label, lo, rows in (("beyond-4GiB", 2**32 - 70 * 1000, 300), ("beyond-2**53", 2**53 - 3000, 7), ("small", 720, 3)):
+        R = 1000
+        ranges = [(lo + i * R + 192, lo + (i + 1) * R) for i in range(rows)]
+        for extra in (0, 2):  # as many ranges as lines / two more (the header's record count and line count are independent)
+            arr = Array(fs=DirFileSystem(path="/no/such/product", fs=fsspec.filesystem("file")), url="IMG-HH-X", byte_ranges=ranges,
+                        shape=(rows - extra, (R - 192) // 2), dtype="uint16", type_code="IU2", records_per_chunk=64)
+            g = Group(path="", url="u", data={"data": Variable(["rows", "columns"], arr, {})}, attrs={})
+            g.path = ""  # open_image assigns the group name after construction; it may be empty
+            for rpc in (1, 64, 10**6):
+                check(f"generated/backend-array/{label}/extra-ranges={extra}/rpc={rpc}", g, rpc)
     n_gen = n
     bad_gen = list(bad)
-    ses.bounded_check("C08/bounded/generated-hierarchies-round-trip", not [b for b in bad],
+    ses.bounded_check(f"{prop}/bounded/generated-hierarchies-round-trip", not [b for b in bad],
                       bound=f"{n_gen} hierarchies: 14 dtype variants (kinds b,i,u,f,M,m,U) x shapes (), (0,), (1,), (5,), (2,3), (1,0) "
                             "with boundary values (int64 extremes, > 2**53 ticks, NaN/inf/-0.0, NaT, non-ASCII), nested attrs with "
                             "tuples inside mixed lists", function="ceos_alos2.sar_image.caching.encode", evaluations=n_gen,
@@ -231,7 +244,7 @@ def run(ses):
         import shutil
 
         shutil.rmtree(d, ignore_errors=True)
-    ses.bounded_check("C08/bounded/reader-produced-groups-round-trip", not bad2,
+    ses.bounded_check(f"{prop}/bounded/reader-produced-groups-round-trip", not bad2,
                       bound=f"{n - n_gen} round trips: level 1.5 / 1.1 images x typical / extreme prefix values x 3 read-time rpc",
                       function="ceos_alos2.sar_image.caching.decode", evaluations=n - n_gen,
                       replay=lambda m: {"confirmed": True, "input": bad2[0][0], "observed": bad2[0][1], "expected": "decode(encode(g)) == g"},
@@ -239,15 +252,15 @@ def run(ses):
     import inspect
 
     src = inspect.getsource(encoders.preprocess) + inspect.getsource(decoders.postprocess)
-    ses.decided("C08/tuple-tagging/encoder-and-decoder-use-the-same-tag", src.count('"tuple"') >= 2 and "__type__" in src,
+    ses.decided(f"{prop}/tuple-tagging/encoder-and-decoder-use-the-same-tag", src.count('"tuple"') >= 2 and "__type__" in src,
                 function="ceos_alos2.sar_image.caching.encoders.preprocess", backend="syntactic")
-    ses.decided("C08/document-is-text", "json.dumps" in inspect.getsource(caching.encode), function="ceos_alos2.sar_image.caching.encode",
+    ses.decided(f"{prop}/document-is-text", "json.dumps" in inspect.getsource(caching.encode), function="ceos_alos2.sar_image.caching.encode",
                 backend="syntactic")
     # the deductive part: structural induction over the hierarchy on the real functions (props/codec.py); where a function body
     # leaves the verified subset, the bounded round trips above stand in
     from props import codec
 
-    codec.run(ses, "C08")
+    codec.run(ses, prop)
     all_bad = list(bad_gen) + list(bad2)
     ses.resolve_engine_limits("codec", lambda: (not all_bad, n, {"input": all_bad[0][0], "observed": all_bad[0][1],
                                                                  "expected": "decode(encode(g)) == g"} if all_bad else None),
